@@ -64,6 +64,7 @@ def check(rep: Report, ctx: Ctx) -> None:
     r517(rep, ctx)
     r518(rep, ctx)
     r519(rep, ctx)
+    r520(rep, ctx)
 
 
 # --------------------------------------------------------------------------
@@ -1358,5 +1359,21 @@ def r519(rep: Report, ctx: Ctx) -> None:
              "from a scan of all its nodes (= C01 R1.22)", 5)
     for o in sub.obligations:
         o.rule = "R5.19"
+        rep.obligations.append(o)
+    rep.funcs_seen |= sub.funcs_seen
+
+
+def r520(rep: Report, ctx: Ctx) -> None:
+    """(shared with C07 R7.16)  "break / detach only at the end of a branch":
+    `break` is what a dummy break placeholder becomes; a placeholder that is
+    put behind an event outside the loop is drawn outside the repeat, in the
+    middle of a branch (defect D9)."""
+    from . import c07
+    sub = Report("C07", ctx.index)
+    c07.r716(sub, ctx)
+    rep.rule("R5.20", "dummy breaks are created inside the loop body only, "
+             "on edges and sets alike (= C07 R7.16)", 11)
+    for o in sub.obligations:
+        o.rule = "R5.20"
         rep.obligations.append(o)
     rep.funcs_seen |= sub.funcs_seen
